@@ -120,6 +120,9 @@ const (
 	ssaStyleFormatNameUnderline       = "Underline"
 )
 
+// SSA style header
+const ssaStyleHeader = "Style"
+
 // SSA regexp
 var ssaRegexpEffect = regexp.MustCompile(`\{[^\{]+\}`)
 
@@ -237,6 +240,13 @@ func ReadFromSSAWithOptions(i io.Reader, opts SSAOptions) (o *Subtitles, err err
 					}
 					es = append(es, e)
 				case ssaSectionNameStyles:
+					// Only style definitions are processed
+					if header != ssaStyleHeader {
+						if opts.OnInvalidLine != nil {
+							opts.OnInvalidLine(line)
+						}
+						continue
+					}
 					var s *ssaStyle
 					if s, err = newSSAStyleFromString(content, format); err != nil {
 						err = fmt.Errorf("astisub: building new ssa style failed: %w", err)
